@@ -12,9 +12,12 @@ from .algebra import rat, angle_of, result_kind, close_num, expected_of
 
 mpf = mpmath.mpf
 TOL = mpf(10) ** -35
-CONCRETE_PARAMS = {"scale"}
-SKIP = {"abs", "square", "np_sqrt", "np_cbrt", "np_power", "neg", "divide", "scale2D", "scale3D", "neg2D", "neg3D",
-        "transform2D_partial", "transform3D_partial", "equal", "not_equal", "isclose"}     # operator / ufunc forms: not SymPy API under test here
+CONCRETE_PARAMS = {"scale", "divide", "np_power"}
+SKIP = {"scale2D", "scale3D", "neg2D", "neg3D", "transform2D_partial", "transform3D_partial", "equal", "not_equal", "isclose"}
+# spellings of one operation: method, operator, reflected operator, ufunc, in-place operator (the target keeps its system)
+FORMS = {"add": ["method", "operator", "ufunc", "inplace"], "subtract": ["method", "operator", "ufunc", "inplace"],
+         "scale": ["method", "operator", "roperator", "inplace"], "divide": ["operator", "inplace"], "dot": ["method", "operator"],
+         "neg": ["operator"], "abs": ["operator"], "square": ["operator"], "np_sqrt": ["ufunc"], "np_cbrt": ["ufunc"], "np_power": ["ufunc"]}
 _cache = {}
 
 
@@ -45,7 +48,7 @@ def sym_vector(prefix, sig, flavor, by_keywords=False):
 
 
 def nparams(op, p):
-    if op in ("scale", "rotateZ", "rotateX", "rotateY", "rotate_axis") or op.endswith("_beta") or op.endswith("_gamma") or op.startswith("is_"):
+    if op in ("scale", "divide", "np_power", "rotateZ", "rotateX", "rotateY", "rotate_axis") or op.endswith("_beta") or op.endswith("_gamma") or op.startswith("is_"):
         return 1
     if op in ("rotate_euler", "rotate_nautical"):
         return 3
@@ -57,7 +60,7 @@ def nparams(op, p):
 
 
 def param_values(op, p):
-    if op in ("scale",) or op.endswith("_beta") or op.endswith("_gamma") or op.startswith("is_"):
+    if op in ("scale", "divide", "np_power") or op.endswith("_beta") or op.endswith("_gamma") or op.startswith("is_"):
         return [rat(p[0])]
     if op in ("rotateZ", "rotateX", "rotateY", "rotate_axis"):
         return [angle_of(p[0], 0)]
@@ -70,13 +73,51 @@ def param_values(op, p):
     return []
 
 
-def sym_call(op, A, B, ps, p):
+def sym_call(op, A, B, ps, p, form="method"):
+    import numpy
+
     if op in algebra.UNARY_PROPS:
         return getattr(A, op)
     if op in ("unit", "to_beta3"):
         return getattr(A, op)()
     if op == "scale":
+        if form == "operator":
+            return A * ps[0]
+        if form == "roperator":
+            return ps[0] * A
+        if form == "inplace":
+            A *= ps[0]
+            return A
         return A.scale(ps[0])
+    if op == "divide":
+        if form == "inplace":
+            A /= ps[0]
+            return A
+        return A / ps[0]
+    if op in ("add", "subtract") and form != "method":
+        if form == "operator":
+            return A + B if op == "add" else A - B
+        if form == "ufunc":
+            return numpy.add(A, B) if op == "add" else numpy.subtract(A, B)
+        if op == "add":
+            A += B
+        else:
+            A -= B
+        return A
+    if op == "dot" and form == "operator":
+        return A @ B
+    if op == "neg":
+        return -A
+    if op == "abs":
+        return abs(A)
+    if op == "square":
+        return A ** 2
+    if op == "np_sqrt":
+        return numpy.sqrt(A)
+    if op == "np_cbrt":
+        return numpy.cbrt(A)
+    if op == "np_power":
+        return numpy.power(A, ps[0])
     if op in ("rotateZ", "rotateX", "rotateY"):
         return getattr(A, op)(ps[0])
     if op == "rotate_axis":
@@ -102,13 +143,13 @@ def sym_call(op, A, B, ps, p):
     return getattr(A, op)(B)
 
 
-def compiled(op, sa, sb, flavor, p):
+def compiled(op, sa, sb, flavor, p, form="method"):
     """(function, result kind, result signature) for the symbolic expression of op in these systems."""
     import sympy
     import vector
 
     fixed = json.dumps(p[3]) if op == "rotate_euler" else (json.dumps(p) if op in CONCRETE_PARAMS else "")
-    key = (op, sa, sb, flavor, fixed)
+    key = (op, sa, sb, flavor, fixed, form)
     if key in _cache:
         return _cache[key]
     kwctor = (hash(json.dumps([op, sa, sb])) % 2) == 0
@@ -122,7 +163,7 @@ def compiled(op, sa, sb, flavor, p):
     try:
         with warnings.catch_warnings():
             warnings.simplefilter("ignore")
-            out = sym_call(op, A, B, call_ps, p)
+            out = sym_call(op, A, B, call_ps, p, form)
     except Exception as ex:
         _cache[key] = ("error", f"{type(ex).__name__}: {ex}"[:200], None)
         return _cache[key]
@@ -179,49 +220,52 @@ def run_case(case, full):
         scale = max(scale * scale, 1 + abs(exp))
     for sa, sb in combos:
         flavor = "momentum" if algebra._h(case, "symfl") % 2 else "generic"
-        base = {"op": op, "sig": [sa, sb], "tag": "sympy", "case": case}
-        f, rk, rsig = compiled(op, sa, sb, flavor, case["p"])
-        if f == "error":
-            recs.append(dict(base, kind="no-expression", error=rk))
-            continue
-        vals = coords.store(va, sa) + (coords.store(vb, sb) if vb else []) + pv
-        calls += 1
-        try:
-            out = f(*vals)
-        except Exception as ex:
-            recs.append(dict(base, kind="evaluation-error", error=f"{type(ex).__name__}: {ex}"[:200]))
-            continue
-        eps = TOL * scale
-        if rk == "bool":
-            if bool(out) != (exp == "T"):
-                recs.append(dict(base, kind="wrong-boolean", got=bool(out), want=exp))
-        elif rk == "num":
-            try:
-                val = mpf(out) if not isinstance(out, mpmath.mpc) else (out.real if abs(out.imag) < eps else mpf("nan"))
-            except Exception:
-                recs.append(dict(base, kind="non-numeric", got=repr(out)[:100]))
-                continue
-            e = eps
-            if op in algebra.SQRT_LIKE and any(abs(exp - s0) <= mpf(10) ** -15 * scale for s0 in algebra.SQRT_LIKE[op]):
-                e = mpf(10) ** -20 * scale
-            if not close_num(val, exp, e, angle=(op in algebra.ANGLE_VALUED or tie)):
-                recs.append(dict(base, kind="wrong-value", got=mpmath.nstr(val, 30), want=mpmath.nstr(exp, 30)))
-        else:
-            st = [mpf(x) if not isinstance(x, mpmath.mpc) else x.real for x in out]
-            if len(st) != len(exp) or len(rsig) + 1 != len(exp):
-                recs.append(dict(base, kind="wrong-dimension", got=len(st), want=len(exp)))
-                continue
-            if not algebra.result_representable(exp, rsig):
-                continue
-            cart = coords.denote(st, rsig)
-            bad = [i for i in range(len(exp)) if not close_num(cart[i], exp[i], eps)]
-            if bad == [3] and rsig[2] == "tau":
-                m2 = exp[3] ** 2 - exp[0] ** 2 - exp[1] ** 2 - exp[2] ** 2
-                etau = mpmath.sqrt(m2) if m2 >= 0 else -mpmath.sqrt(-m2)
-                if close_num(st[3], etau, mpf(10) ** -20 * scale):
-                    bad = []
-            if bad:
-                recs.append(dict(base, kind="wrong-value", rsig=rsig, got=[mpmath.nstr(c, 25) for c in cart], want=[mpmath.nstr(c, 25) for c in exp]))
+        for form in FORMS.get(op, ["method"]):
+          base = {"op": op, "sig": [sa, sb], "tag": "sympy", "case": case, "form": form}
+          f, rk, rsig = compiled(op, sa, sb, flavor, case["p"], form)
+          if f == "error":
+              recs.append(dict(base, kind="no-expression", error=rk))
+              continue
+          vals = coords.store(va, sa) + (coords.store(vb, sb) if vb else []) + pv
+          calls += 1
+          try:
+              out = f(*vals)
+          except Exception as ex:
+              recs.append(dict(base, kind="evaluation-error", error=f"{type(ex).__name__}: {ex}"[:200]))
+              continue
+          eps = TOL * scale
+          if rk == "bool":
+              if bool(out) != (exp == "T"):
+                  recs.append(dict(base, kind="wrong-boolean", got=bool(out), want=exp))
+          elif rk == "num":
+              try:
+                  val = mpf(out) if not isinstance(out, mpmath.mpc) else (out.real if abs(out.imag) < eps else mpf("nan"))
+              except Exception:
+                  recs.append(dict(base, kind="non-numeric", got=repr(out)[:100]))
+                  continue
+              e = eps
+              if op in algebra.SQRT_LIKE and any(abs(exp - s0) <= mpf(10) ** -15 * scale for s0 in algebra.SQRT_LIKE[op]):
+                  e = mpf(10) ** -20 * scale
+              if op == "np_cbrt":
+                  e = max(e, mpf(10) ** -14 * scale)     # the library's exponent is the double literal 0.16666666666666666
+              if not close_num(val, exp, e, angle=(op in algebra.ANGLE_VALUED or tie)):
+                  recs.append(dict(base, kind="wrong-value", got=mpmath.nstr(val, 30), want=mpmath.nstr(exp, 30)))
+          else:
+              st = [mpf(x) if not isinstance(x, mpmath.mpc) else x.real for x in out]
+              if len(st) != len(exp) or len(rsig) + 1 != len(exp):
+                  recs.append(dict(base, kind="wrong-dimension", got=len(st), want=len(exp)))
+                  continue
+              if not algebra.result_representable(exp, rsig):
+                  continue
+              cart = coords.denote(st, rsig)
+              bad = [i for i in range(len(exp)) if not close_num(cart[i], exp[i], eps)]
+              if bad == [3] and rsig[2] == "tau":
+                  m2 = exp[3] ** 2 - exp[0] ** 2 - exp[1] ** 2 - exp[2] ** 2
+                  etau = mpmath.sqrt(m2) if m2 >= 0 else -mpmath.sqrt(-m2)
+                  if close_num(st[3], etau, mpf(10) ** -20 * scale):
+                      bad = []
+              if bad:
+                  recs.append(dict(base, kind="wrong-value", rsig=rsig, got=[mpmath.nstr(c, 25) for c in cart], want=[mpmath.nstr(c, 25) for c in exp]))
     return recs, calls
 
 
@@ -255,4 +299,118 @@ def replay(cases, full=False, procs=16):
             total["cases"] += out["cases"]
             keys |= set(out["expr_keys"])
     total["expressions"] = len(keys)
+    return total
+
+
+# ---------------------------------------------------------------- conversions (states of Convert.tla) on the SymPy backend
+CONV_POINT = (mpf("1.1"), mpf("-2.2"), mpf("3.3"), mpf("10.5"))
+CONV_KW = {"lon": mpf("0.625"), "tmp": mpf("7.5")}
+
+
+def run_conversion(c):
+    """One conversion state: kept coordinates are the very same expressions, imputed ones exactly the keyword
+    expression or zero in the required coordinate type, computed groups denote the same geometric part."""
+    import sympy
+    import vector
+    from . import convx
+
+    recs, calls = [], 0
+    src_sig = convx.sig_of_sys(c["src"])
+    req = c["req"]
+    if c["kind"] == "like":
+        return recs, 0
+    for flavor in ("generic", "momentum"):
+        A, syms = sym_vector("a", src_sig, flavor, by_keywords=(flavor == "momentum"))
+        klon, ktmp = sympy.Symbol("k_lon", real=True), sympy.Symbol("k_tmp", real=True)
+        kw = {}
+        if c["lonkw"] != "none":
+            kw[c["lonkw"]] = klon
+        if c["tmpkw"] != "none":
+            kw[c["tmpkw"]] = ktmp
+        if c["lonkw2"] != "none":
+            kw[c["lonkw2"]] = klon + 1
+        if c["tmpkw2"] != "none":
+            kw[c["tmpkw2"]] = ktmp + 1
+        if c["kind"] == "to_system":
+            name = convx.method_name(c["tgt"], c["spelling"])
+        elif c["kind"] == "to_VectorND":
+            name = f"to_Vector{c['n']}D"
+        else:
+            name = f"to_{c['n']}D"
+        base = {"op": name, "sig": [src_sig, None], "backend": "sympy", "flavor": flavor, "tag": "sympy-conv", "kw": sorted(kw), "case": c}
+        calls += 1
+        try:
+            with warnings.catch_warnings():
+                warnings.simplefilter("ignore")
+                out = getattr(A, name)(**kw)
+        except TypeError as ex:
+            if req["out"] != "TypeError":
+                recs.append(dict(base, kind="unexpected-TypeError", error=str(ex)[:200]))
+            continue
+        except Exception as ex:
+            recs.append(dict(base, kind="exception", error=f"{type(ex).__name__}: {ex}"[:200]))
+            continue
+        if req["out"] == "TypeError":
+            recs.append(dict(base, kind="missing-TypeError"))
+            continue
+        if not isinstance(out, vector.Vector) or not type(out).__module__.endswith("sympy"):
+            recs.append(dict(base, kind="not-a-sympy-vector", got=type(out).__name__))
+            continue
+        rsig = coords.sig_of(out)
+        want_sig = convx.sig_of_sys(req["sys"])
+        if tuple(rsig) != tuple(want_sig):
+            recs.append(dict(base, kind="wrong-system", got=list(rsig), want=list(want_sig)))
+            continue
+        if isinstance(out, vector.Momentum) != (flavor == "momentum"):
+            recs.append(dict(base, kind="flavor-changed"))
+        els = list(out.azimuthal.elements) + (list(out.longitudinal.elements) if len(rsig) > 1 else []) + (list(out.temporal.elements) if len(rsig) > 2 else [])
+        sfields = dict(zip(coords.field_names(src_sig), syms))
+        point = dict(zip(syms, coords.store(list(CONV_POINT[: len(src_sig) + 1]), src_sig)))
+        point[klon], point[ktmp] = CONV_KW["lon"], CONV_KW["tmp"]
+        args = list(point)
+        f = sympy.lambdify(args, [sympy.sympify(e) for e in els], modules="mpmath")
+        vals = [mpf(x) if not isinstance(x, mpmath.mpc) else x.real for x in f(*[point[a] for a in args])]
+        for fname, expr, val, status in zip(coords.field_names(rsig), els, vals, req["coords"]):
+            if status[0] == "keep":
+                if sympy.sympify(expr) != sfields[status[1]]:
+                    recs.append(dict(base, kind="kept-coordinate-changed", field=fname, got=str(expr)[:100], want=str(sfields[status[1]])))
+            elif status[0] == "kw":
+                want = klon if status[1] in ("z", "pz", "theta", "eta") else ktmp
+                if sympy.sympify(expr) != want:
+                    recs.append(dict(base, kind="imputed-value-wrong", field=fname, got=str(expr)[:100], want=str(want)))
+            elif status[0] == "zero":
+                if not sympy.sympify(expr).is_zero:
+                    recs.append(dict(base, kind="imputed-zero-wrong", field=fname, got=str(expr)[:100]))
+        # computed groups: the geometric part of the source
+        nsrc = len(src_sig) + 1
+        cart = coords.denote(vals, rsig)
+        for i in range(min(nsrc, len(cart))):
+            if not close_num(cart[i], CONV_POINT[i], mpf(10) ** -35 * 20):
+                recs.append(dict(base, kind="denotation-changed", component=i, got=mpmath.nstr(cart[i], 25), want=mpmath.nstr(CONV_POINT[i], 25)))
+                break
+    return recs, calls
+
+
+def conv_worker(chunk):
+    out = {"records": [], "calls": 0, "cases": 0}
+    for c in chunk:
+        r, n = run_conversion(c)
+        out["records"] += r
+        out["calls"] += n
+        out["cases"] += 1 if n else 0
+    return out
+
+
+def replay_conversions(cases, procs=16):
+    import multiprocessing as mp
+
+    n = max(1, min(procs, len(cases)))
+    chunks = [cases[i::n * 4] for i in range(n * 4)]
+    chunks = [c for c in chunks if c]
+    total = {"records": [], "calls": 0, "cases": 0}
+    with mp.get_context("fork").Pool(n) as pool:
+        for out in pool.imap_unordered(conv_worker, chunks):
+            total["records"] += out["records"]
+            total["calls"] += out["calls"]
+            total["cases"] += out["cases"]
     return total
